@@ -56,6 +56,20 @@ Proof.
   pose proof (kes_forward_secure_attacker d b s n k t' Hb Hs Hn Hev Ht' (desc_know _ _ _ Hk Hd)). lia.
 Qed.
 
+(* ... and therefore cannot forge: (the first half of) a signature by an earlier period's
+   key on ANY message is not computable from the captured buffer *)
+Theorem kes_no_past_forgery : forall d b s n k t' m,
+  length b = ksize d -> is_seed s = true -> Z.of_nat n < total d ->
+  evolve d b s n = Some k -> 0 <= t' < total d ->
+  know (key_buf k) (SigR (leaf_seed d s t') m) -> Z.of_nat n <= t'.
+Proof.
+  intros d b s n k t' m Hb Hs Hn Hev Ht' Hk.
+  apply know_sigR_inv in Hk as [Hin|Hk].
+  - rewrite (evolve_closed d b s n Hb Hn) in Hev. injection Hev as <-. cbn [key_buf fst] in Hin.
+    exfalso. exact (key_at_no_sig _ _ _ _ _ Hs Hin).
+  - exact (kes_forward_secure_attacker d b s n k t' Hb Hs Hn Hev Ht' Hk).
+Qed.
+
 (* keygen wipes the caller's seed *)
 Theorem kes_keygen_wipes_seed : forall d b s, length b = ksize d ->
   snd (keygen d b s) = Zero.
